@@ -18,7 +18,8 @@ EXPLANATION = (
     "arguments and ORs the results, and equilibrate re-applies the rectification to A, b and e before forming the "
     "inverses; (R5) disabled => no write at all; (R6) column/row norms feed the right work vector."
     " R4 also: no pass of the composite cone loop skips the per-cone rectification for a cone type whose own rectification is not the no-op (skip condition evaluated per cone type from constant layout predicates)."
-    " R4 also: for the scalar cones (zero, nonnegative) the own rectification is the no-op, so their all-zero rows stay unscaled.")
+    " R4 also: for the scalar cones (zero, nonnegative) the own rectification is the no-op, so their all-zero rows stay unscaled."
+    " (R9) the sparse scaling primitives the invariant relies on multiply every stored entry by l[row] r[col] (C16.R4 re-run).")
 ASSUMPTIONS = ['rustc MIR construction and trait resolution are correct',
                'algebra primitives (lrscale, hadamard, col_norms, clip, mean ...) have their documented meaning',
                'the mean of values inside [lo,hi] lies inside [lo,hi]']
@@ -327,5 +328,9 @@ def run(ctx, rep, tier):
     units_rules.c10(ctx, rep)
     from . import primitives
     primitives.vector_primitives(rep, ctx.facts('default'), ctx.eff('default'), '', 'C10.R7')
+    # "the internal data equal c*D*P*D, E*A*D entry for entry": the units invariant treats lrscale / lscale / rscale / scale as primitives;
+    # their entry-wise meaning (v *= l[row] r[col] for every stored entry) is C16.R4, re-run here
+    from . import c16, c04
+    c16.scalings(c04._Ren(rep, 'C16.R4', 'C10.R9'), ctx.facts('default'), '')
 
 
